@@ -234,9 +234,22 @@ Lemma frontlocal_order logs sched c :
   proj front c (lookup (got (run_sched true (start logs) sched)) c) = proj front c (lookup logs front).
 Proof. intros O. exact (order_complete true logs sched front c O (or_introl eq_refl)). Qed.
 
-(* the shortcut taken by [Spec.accepts] *)
+(* the issue log of an issuer, restricted to a connection, is the restriction of everything issued *)
 Lemma proj_issue_log ops i c : proj i c (issue_log ops i) = proj i c (issue_from [] ops).
 Proof.
   unfold issue_log, proj. induction (issue_from [] ops) as [|x r IH]; simpl; [reflexivity|].
   destruct (Z.eqb (it_iss x) i) eqn:E; simpl; [rewrite E|]; rewrite IH; reflexivity.
 Qed.
+
+(* what [Spec.accepts] compares request by request is the restriction of the order theorem *)
+Lemma proj3_proj i c t l : proj3 i c t l = filter (fun x => Z.eqb (it_tag x) t) (proj i c l).
+Proof.
+  unfold proj3, proj. induction l as [|x r IH]; simpl; [reflexivity|].
+  destruct (Z.eqb (it_iss x) i && Z.eqb (it_conn x) c); simpl; [destruct (Z.eqb (it_tag x) t)|]; rewrite IH; reflexivity.
+Qed.
+
+Lemma order_per_request fixed logs sched i c t :
+  owned_logs logs -> covered fixed i ->
+  drained (run_sched fixed (start logs) sched) ->
+  proj3 i c t (lookup (got (run_sched fixed (start logs) sched)) c) = proj3 i c t (lookup logs i).
+Proof. intros O CV D. rewrite !proj3_proj, (order_complete fixed logs sched i c O CV D). reflexivity. Qed.
